@@ -678,22 +678,39 @@ func freshLocals(info *types.Info, body *ast.BlockStmt) map[types.Object]bool {
 	if body == nil {
 		return out
 	}
+	assigned := map[types.Object]int{}
 	ast.Inspect(body, func(n ast.Node) bool {
 		as, ok := n.(*ast.AssignStmt)
-		if !ok || as.Tok != token.DEFINE || len(as.Lhs) != len(as.Rhs) {
+		if !ok || len(as.Lhs) != len(as.Rhs) {
 			return true
 		}
 		for i, r := range as.Rhs {
+			id, ok := as.Lhs[i].(*ast.Ident)
+			if !ok {
+				continue
+			}
+			obj := info.Defs[id]
+			if obj == nil {
+				obj = info.Uses[id]
+			}
+			if obj == nil {
+				continue
+			}
+			assigned[obj]++
 			if isFreshExpr(r) {
-				if id, ok := as.Lhs[i].(*ast.Ident); ok {
-					if obj := info.Defs[id]; obj != nil {
-						out[obj] = true
-					}
-				}
+				out[obj] = true
 			}
 		}
 		return true
 	})
+	// only variables with a single assignment (the fresh one) that are locals or named results of
+	// the enclosing function (declared inside it or in its signature, never package level)
+	for obj := range out {
+		v, isVar := obj.(*types.Var)
+		if assigned[obj] != 1 || !isVar || v.IsField() || v.Parent() == nil || v.Parent() == v.Pkg().Scope() {
+			delete(out, obj)
+		}
+	}
 	return out
 }
 
